@@ -9,9 +9,12 @@
      (7 (part ...) (v ...))    HTML template          -> likewise
      (8 style ac value)        to_formatted_text(value, style, auto_convert) -> likewise (value: see Model/C18_Convert.v)
      (9 s)                     ansi_strip s, ansi_zero_width s (the grammar-level specification) -> (text (payload ...))
+     (10 frags (op ...))       _ExplodedList: explode_text_fragments(frags), then item/slice assignment, append, extend, += -> the list after each op
+     (11 ((c w) ...) frags)    fragment_list_width with the given per-character widths (others 1) -> width
+     (12 (((part ...) text) ...))  PygmentsTokens -> (frag ...)
    frag = (style text rest). *)
 From Coq Require Import ZArith List Bool.
-From PTK Require Import Lib.Sx Lib.Py Model.C18_Fragments Model.C18_Ansi Model.C18_Html Model.C18_Convert Model.C18_AnsiGrammar.
+From PTK Require Import Lib.Sx Lib.Py Model.C18_Fragments Model.C18_Ansi Model.C18_Html Model.C18_Convert Model.C18_AnsiGrammar Model.C18_Exploded Model.C18_Width.
 Import ListNotations.
 Open Scope Z_scope.
 
@@ -59,6 +62,27 @@ Definition run_C18 (c : sx) : sx :=
       match dec_strs ps, dec_strs vs with
       | Some ps', Some vs' =>
           if len ps' =? len vs' + 1 then enc_res (html_template cfg_now ps' vs') else bad_case
+      | _, _ => bad_case
+      end
+  | L [A 11; L tb; fs] =>
+      match map_opt (fun e => match e with L [A c; A x] => Some (c, x) | _ => None end) tb, dec_frags fs with
+      | Some t, Some frs => A (fragment_list_width (table_width t) frs)
+      | _, _ => bad_case
+      end
+  | L [A 12; L toks] =>
+      match map_opt (fun e => match e with
+                              | L [L ps; tx] => match map_opt as_str ps, as_str tx with
+                                                | Some ps', Some tx' => Some (ps', tx')
+                                                | _, _ => None
+                                                end
+                              | _ => None
+                              end) toks with
+      | Some tl => enc_frags (pygments_frags tl)
+      | None => bad_case
+      end
+  | L [A 10; fs; L ops] =>
+      match dec_frags fs, map_opt dec_elop ops with
+      | Some frs, Some ops' => L (map enc_frags (el_run (explode frs) ops'))
       | _, _ => bad_case
       end
   | L [A 9; s] =>
